@@ -6,6 +6,7 @@ This is a specification of NGINX's configuration-time checks for the directives 
 base, DESIGN §4): tokenisation/nesting (`NGF.Nginx.parse`), include expansion, directive table
 (context, arity, "is duplicate"), duplicate locations / upstreams / variable definitions /
 default servers / map keys, variable references (`ngx_http_script_compile`), upstream references,
+the address and parameters of `listen` (`ngx_parse_url`),
 included and certificate files, njs match keys, split_clients percentages, unix socket path length,
 regular expressions (PCRE subset). It does not mention the generator model. Core Lean only.
 -/
@@ -343,6 +344,55 @@ def percentOf (s : List Char) : Option Nat :=
 def unixPathOf (arg : List Char) : Option (List Char) :=
   if startsWithL arg "unix:".toList then some ((arg.drop 5).takeWhile (· != ':')) else none
 
+/-! ### The argument of `listen` (`ngx_parse_url` with `listen = 1`, `ngx_http_core_listen` / `ngx_stream_core_listen`) -/
+
+/-- a decimal port 1..65535 (`ngx_atoi` + range check: "invalid port") -/
+def portOK (cs : List Char) : Bool :=
+  allDigits cs && decide (1 ≤ Nat.ofDigitChars 10 cs 0) && decide (Nat.ofDigitChars 10 cs 0 ≤ 65535)
+
+/-- the text between `[` and `]`: an IPv6 address (`ngx_inet6_addr`; shape only: hex digits, `:` and `.`, with a `:`) -/
+def v6OK (cs : List Char) : Bool :=
+  !cs.isEmpty && cs.contains ':' && cs.all fun c => c.isDigit || ('a' ≤ c && c ≤ 'f') || ('A' ≤ c && c ≤ 'F') || c == ':' || c == '.'
+
+/-- `*`, an IPv4 address or a host name -/
+def hostOK (cs : List Char) : Bool :=
+  !cs.isEmpty && cs.all fun c => c.isAlphanum || c == '.' || c == '-' || c == '_' || c == '*'
+
+/-- the address of a `listen`: `unix:path` (only at the start), `[v6]` / `[v6]:port`, `host:port` (the port is what
+follows the LAST colon), `port`, `host` -/
+def listenAddrOK (a : List Char) : Bool :=
+  if startsWithL a "unix:".toList then !(a.drop 5).isEmpty
+  else if a.head? == some '[' then
+    let inner := (a.drop 1).takeWhile (· != ']')
+    match (a.drop 1).dropWhile (· != ']') with
+    | [']'] => v6OK inner
+    | ']' :: ':' :: port => v6OK inner && portOK port
+    | _ => false
+  else if a.contains ':' then
+    portOK (a.reverse.takeWhile (· != ':')).reverse && hostOK ((a.reverse.dropWhile (· != ':')).drop 1).reverse
+  else if allDigits a then portOK a
+  else hostOK a
+
+def listenFlags : List String :=
+  ["default_server", "default", "ssl", "http2", "quic", "proxy_protocol", "deferred", "bind", "reuseport", "udp"]
+
+def listenFlagPrefixes : List String :=
+  ["setfib=", "fastopen=", "backlog=", "rcvbuf=", "sndbuf=", "accept_filter=", "ipv6only=", "so_keepalive="]
+
+def listenFlagOK (f : List Char) : Bool :=
+  listenFlags.any (fun k => k.toList == f) ||
+  listenFlagPrefixes.any fun k => startsWithL f k.toList && f.length > k.length
+
+/-- why NGINX rejects the arguments of a `listen` directive (none = accepted) -/
+def listenWhy (args : List (List Char)) : Option String :=
+  match args with
+  | [] => some "no address"
+  | a :: flags =>
+    if !listenAddrOK a then some ("invalid address or port in \"" ++ str a ++ "\"")
+    else match flags.find? (fun f => !listenFlagOK f) with
+      | some f => some ("invalid parameter \"" ++ str f ++ "\"")
+      | none => none
+
 /-! ### The judge -/
 
 structure Issue where
@@ -515,7 +565,14 @@ def checkKind (env : Env) (sp : Spec) (d : Dir) : List Issue :=
   | "spass" =>
     if startsWithL a0 ['$'] || startsWithL a0 "unix:".toList || env.streamUpstreams.contains (str a0) then []
     else [⟨"undefined-upstream", n ++ " " ++ str a0⟩]
-  | "listen" | "upserver" =>
+  | "listen" =>
+    (match unixPathOf a0 with
+      | some p => if (str p).utf8ByteSize > 107 then [⟨"unix-socket-path-too-long", n ++ " " ++ str a0⟩] else []
+      | none => []) ++
+    (match listenWhy (d.args.map (·.1)) with
+      | some why => [⟨"bad-listen", n ++ " " ++ " ".intercalate d.argStrings ++ ": " ++ why⟩]
+      | none => [])
+  | "upserver" =>
     match unixPathOf a0 with
     | some p => if (str p).utf8ByteSize > 107 then [⟨"unix-socket-path-too-long", n ++ " " ++ str a0⟩] else []
     | none => []
